@@ -34,6 +34,8 @@ pub enum Extra {
     None,
     Shutdown(usize),
     UserLock(usize),
+    /// the user asks for a handshake with a given address (ChitchatHandle::gossip)
+    GossipCmd(usize),
 }
 
 #[derive(Clone, Debug)]
@@ -159,6 +161,7 @@ pub async fn scenario(script: &[Ev], extra: Extra, out: &mut ScOut) {
     // both are pending in the select, either may win
     let mut ambiguous = false;
     let mut syn_times: Vec<Duration> = vec![];
+    let mut gossip_cmd_at: Option<Duration> = None;
     tokio::time::sleep(Duration::from_millis(500)).await;
     for (j, ev) in script.iter().enumerate() {
         let now = Instant::now() - t0;
@@ -167,6 +170,13 @@ pub async fn scenario(script: &[Ev], extra: Extra, out: &mut ScOut) {
                 let _ = handle.initiate_shutdown();
                 terminal = Some((3, now));
                 out.c.inc("shutdown_requests");
+            }
+        }
+        if let Extra::GossipCmd(p) = extra {
+            if p == j && terminal.is_none() {
+                let _ = handle.gossip(addr(30_003));
+                gossip_cmd_at = Some(now);
+                out.c.inc("gossip_commands");
             }
         }
         if let Extra::UserLock(p) = extra {
@@ -258,6 +268,12 @@ pub async fn scenario(script: &[Ev], extra: Extra, out: &mut ScOut) {
                 out.findings.push(Finding::new(&["C19"], "server.syn_unanswered", format!("{what}: {} SYNs injected at {syn_times:?}, {answers} SYN-ACK send attempts", syn_times.len())));
             }
             out.c.add("syns_answered", answers as u64);
+            // a user-requested handshake is attempted
+            if let Some(t) = gossip_cmd_at {
+                if !sends.iter().any(|s| s.kind == "syn" && s.to == addr(30_003) && s.at >= t) {
+                    out.findings.push(Finding::new(&["C19"], "server.gossip_command_ignored", format!("{what}: gossip({}) requested at {t:?}, no SYN was sent there", addr(30_003))));
+                }
+            }
             // the termination watcher must still be pending
             let tw = tokio::time::timeout(Duration::from_millis(1), handle.termination_watcher()).await;
             if tw.is_ok() {
@@ -438,6 +454,9 @@ pub fn check(args: &Args) -> Outcome {
             for p in 0..l {
                 jobs.push((s.clone(), Extra::Shutdown(p)));
                 jobs.push((s.clone(), Extra::UserLock(p)));
+                if l <= maxlen.saturating_sub(1) {
+                    jobs.push((s.clone(), Extra::GossipCmd(p)));
+                }
             }
         }
     }
@@ -449,9 +468,10 @@ pub fn check(args: &Args) -> Outcome {
         let l = rng.random_range(maxlen + 1..=12);
         // fatal events are rare so that long scripts stay alive
         let s: Vec<Ev> = (0..l).map(|_| [Ev::SendOk, Ev::SendErr, Ev::SendErr, Ev::SendDelay, Ev::RecvSyn, Ev::RecvSyn, Ev::SendOk, if rng.random_bool(0.15) { Ev::RecvFatal } else { Ev::RecvSyn }, if rng.random_bool(0.15) { Ev::RecvPanic } else { Ev::SendDelay }][rng.random_range(0..9)]).collect();
-        let extra = match rng.random_range(0..3) {
+        let extra = match rng.random_range(0..4) {
             0 => Extra::None,
             1 => Extra::Shutdown(rng.random_range(0..l)),
+            2 => Extra::GossipCmd(rng.random_range(0..l)),
             _ => Extra::UserLock(rng.random_range(0..l)),
         };
         jobs.push((s, extra));
